@@ -1,4 +1,6 @@
-/- C32 driver: `C32 serve sockIp proto [trusted] [valid] [[line,…],…]`, `C32 spec sockIp [trusted] [valid] [[line,…],…]` -/
+/- C32 driver: `C32 serve|trace|conn sockIp proto [trusted] [gai] …` (`conn`: `[[lines, K|L|X|A],…]` → the steps of `connEvents`) (`gai` = the strings the raw resolver accepted; validity is
+   the model `isValidIp` on top of it), `C32 valid [cands] [gai]`, `C32 spec sockIp [trusted] [[line,…],…]` (no validity
+   input: `Spec.allowedOf`), `C32 numeric [strs]` (`Spec.numericIP`) -/
 import TornadoModel.Base.Wire
 import TornadoModel.C32.Spec
 namespace TornadoModel.C32.Drv
@@ -17,6 +19,19 @@ def decEv (v : V) : Option Ev := do
   | [.atom "H", ls] => pure (.headers (← decStrs ls))
   | [.atom "F"] => pure .finish
   | [.atom "C"] => pure .close
+  | [.atom "X"] => pure .finishRaises
+  | _ => none
+
+def decOutcome : V → Option Outcome
+  | .atom "K" => some .keep
+  | .atom "L" => some .last
+  | .atom "X" => some .raises
+  | .atom "A" => some .abort
+  | _ => none
+
+def decConnReq (v : V) : Option (List (List Nat) × Outcome) := do
+  match ← v.list? with
+  | [ls, o] => pure (← decStrs ls, ← decOutcome o)
   | _ => none
 
 /-- every step of a trace: `[obs, ctx.remote_ip, ctx.protocol]` after each event -/
@@ -34,24 +49,37 @@ def handle (toks : List String) : String :=
     | _, [.atom "serve", ip, proto, tr, va, reqs] =>
       match ip.cps?, proto.cps?, decStrs tr, decStrs va, decReqs reqs with
       | some ip, some proto, some tr, some va, some reqs =>
-        let valid := fun s => va.contains s
+        let valid := isValidIp (fun s => va.contains s)
         let (c, obs) := serve valid (Ctx.init ip proto tr) reqs
         ok [.list ((obs.filter (· != .none)).map encObs), .list [V.ofCps c.remoteIp, V.ofCps c.protocol]]
       | _, _, _, _, _ => err "bad-arg"
     | _, [.atom "trace", ip, proto, tr, va, evs] =>
       match ip.cps?, proto.cps?, decStrs tr, decStrs va, evs.list? >>= (·.mapM decEv) with
       | some ip, some proto, some tr, some va, some evs =>
-        ok [.list (traceAll (fun s => va.contains s) (Ctx.init ip proto tr) evs)]
+        ok [.list (traceAll (isValidIp (fun s => va.contains s)) (Ctx.init ip proto tr) evs)]
       | _, _, _, _, _ => err "bad-arg"
-    | _, [.atom "spec", ip, tr, va, reqs] =>
-      match ip.cps?, decStrs tr, decStrs va, decReqs reqs with
-      | some ip, some tr, some va, some reqs =>
-        let valid := fun s => va.contains s
+    | _, [.atom "conn", ip, proto, tr, va, reqs] =>
+      match ip.cps?, proto.cps?, decStrs tr, decStrs va, reqs.list? >>= (·.mapM decConnReq) with
+      | some ip, some proto, some tr, some va, some reqs =>
+        ok [.list (traceAll (isValidIp (fun s => va.contains s)) (Ctx.init ip proto tr) (connEvents reqs)),
+            .list ((servedReqs reqs).map (fun r => .list (r.map V.ofCps)))]
+      | _, _, _, _, _ => err "bad-arg"
+    | _, [.atom "valid", cs, va] =>
+      match decStrs cs, decStrs va with
+      | some cs, some va => ok [.list ((cs.filter (isValidIp (fun s => va.contains s))).map V.ofCps)]
+      | _, _ => err "bad-arg"
+    | _, [.atom "numeric", cs] =>
+      match decStrs cs with
+      | some cs => ok [.list (cs.map (fun c => V.ofBool (Spec.numericIP c)))]
+      | none => err "bad-arg"
+    | _, [.atom "spec", ip, tr, reqs] =>
+      match ip.cps?, decStrs tr, decReqs reqs with
+      | some ip, some tr, some reqs =>
         ok [.list (reqs.map (fun r =>
           match parseBlock r with
-          | .ok h => .list [V.ofCps (Spec.remoteIpOf valid ip tr h), V.ofBool (Spec.allTrusted tr h)]
+          | .ok h => .list [.list ((Spec.allowedOf ip tr h).map V.ofCps), V.ofBool (Spec.allTrusted tr h)]
           | .error _ => .atom "BadHeaders"))]
-      | _, _, _, _ => err "bad-arg"
+      | _, _, _ => err "bad-arg"
     | _, _ => err "bad-cmd"
 
 end TornadoModel.C32.Drv
